@@ -40,3 +40,20 @@ package ecs
 //@   ensures p != nil && prefixValid(scope) && result != scope ==> prefixBits(result) <= prefixBits(scope) && (prefixValid(source) ==> prefixBits(result) <= prefixBits(source))
 //@   ensures p != nil && prefixValid(scope) && result != scope && addrIs4(prefixAddr(scope)) ==> prefixBits(result) <= int(p.MinScopeV4)
 //@   ensures p != nil && prefixValid(scope) && result != scope && addrIs6(prefixAddr(scope)) ==> prefixBits(result) <= int(p.MinScopeV6)
+//@
+//@ # ---- C19: the scope read off a response: none for SCOPE=0 ("global"), a malformed address, a family that does not
+//@ # match the address, or an impossible prefix length; otherwise address/SCOPE of the FIRST subnet option
+//@ func ReadResponseScope
+//@   abstract
+//@   nosafety all pre
+//@   assert at call (net/netip.Addr).Prefix#1: sub.SourceScope != 0 && arg1 == int(sub.SourceScope) && lastret("internal/ecs.ipToAddr", 1) && arg0 == lastret("internal/ecs.ipToAddr") && ((sub.Family == 1 && lastret("(net/netip.Addr).Is4")) || (sub.Family == 2 && lastret("(net/netip.Addr).Is6")))
+//@   assert at return#9: result1 && result0 == lastret("(net/netip.Addr).Prefix") && lastret("(net/netip.Addr).Prefix", 1) == nil
+//@   assert at return#1: !result1
+//@   assert at return#2: !result1
+//@   assert at return#3: !result1
+//@   assert at return#4: !result1
+//@   assert at return#5: !result1
+//@   assert at return#6: !result1
+//@   assert at return#7: !result1
+//@   assert at return#8: !result1
+//@   assert at return#10: !result1
